@@ -191,8 +191,8 @@ func ValidateParameter(ctx context.Context, input *RequestValidationInput, param
 		schema = parameter.Schema.Value
 	}
 
-	// Set default value if needed
-	if !options.SkipSettingDefaults && value == nil && schema != nil {
+	// Set default value if needed: a default stands in for a parameter the request does not carry
+	if !options.SkipSettingDefaults && value == nil && !found && schema != nil {
 		value = schema.Default
 		for _, subSchema := range schema.AllOf {
 			if subSchema.Value.Default != nil {
